@@ -65,6 +65,7 @@ pub fn def_c28() -> PropDef {
 
 pub fn profile_c07() -> Profile {
     Profile {
+        text_conflict_prologue_permille: 120,
         replicas: (2, 4),
         events: (20, 160),
         w_commit: 18,
@@ -93,6 +94,7 @@ pub fn profile_c29() -> Profile {
 
 pub fn profile_c28() -> Profile {
     Profile {
+        text_conflict_prologue_permille: 120,
         replicas: (1, 3),
         events: (15, 140),
         w_rollback: 10,
